@@ -60,6 +60,12 @@ def run_C02(tier, seed):
     # (c) verdict agreement on every single alteration (both groups) and on mixed batches
     res.append(stages.api_stage("C02", "alter", tier, seed))
     res.append(stages.api_stage("C02", "capacity", tier, seed, groups=("fm",)))
+    # adversarial proofs from the independent guard-free prover (each validated by TLC against the specification's
+    # prover): out-of-range and below-promise values must be rejected
+    res.append(stages.api_stage("C02", "forge", tier, seed))
+    fg, _ = stages.pick_scenarios("forge", tier, seed, lambda s: nm_of(s) <= 16, 10 if q else 100, prop="C02")
+    res.append(stages.trace_stage("C02", "forged-proofs", fg, seed, module="TraceProve", consts={"Strict": "FALSE", "CheckArith": "TRUE", "CrossFresh": "FALSE"}, calls="prove"))
+    res.append(stages.trace_stage("C02", "forged-verify", fg, seed, module="TraceVerify", calls="verify"))
     res.append(stages.api_stage("C02", "batch", tier, seed, groups=("fm",)))
     return res
 
@@ -70,13 +76,17 @@ def run_C03(tier, seed):
     # every behaviour at model scale on both groups, then with every model chunk expanded to the real chunk size
     a = stages.api_stage("C03", "batch", tier, seed, negative=neg, limit=1200 if Q(tier) else None)
     b = stages.api_stage("C03", "batch", tier, seed, groups=("rist",), scale="2:256", scale_min=0,
-                         limit=400 if Q(tier) else None)
+                         limit=400 if Q(tier) else None, must_fn=lambda s: s["sc"]["skew"] != [0, 0, 0])
     b.name = "api:batch@256"
     return [a, b]
 
 
 def run_C05(tier, seed):
-    return [stages.api_stage("C05", "alter", tier, seed)]
+    res = [stages.api_stage("C05", "alter", tier, seed)]
+    # the same alterations inside batches: a member that disagrees on a generator, bit length or degree, at any position
+    dis = lambda s: any(m["v"]["pgH"] != 0 or m["v"]["pgG"] != 0 or m["v"]["n"] != s["sc"]["members"][0]["v"]["n"] or m["v"]["t"] != s["sc"]["members"][0]["v"]["t"] for m in s["sc"]["members"])
+    res.append(stages.api_stage("C05", "batch", tier, seed, groups=("fm",), filter_fn=dis))
+    return res
 
 
 def run_C06(tier, seed):
@@ -84,7 +94,17 @@ def run_C06(tier, seed):
 
 
 def run_C07(tier, seed):
-    return [stages.api_stage("C07", "promise", tier, seed)]
+    q = Q(tier)
+    res = [stages.api_stage("C07", "promise", tier, seed)]
+    # prover side: value == promise accepted, value < promise refused, at every position of an aggregate
+    res.append(stages.api_stage("C07", "witness", tier, seed, groups=("fm",)))
+    # proofs from the independent (guard-free) prover: value >= 2^bits under a promise; accepted iff the relation holds
+    # AND the promise fits the bit length
+    res.append(stages.api_stage("C07", "forge", tier, seed))
+    # the coefficient on H carries every promise: final-MSM scalars against the published relation
+    sc, _ = stages.pick_scenarios("promise", tier, seed, lambda s: verifies(s) and nm_of(s) <= 16, 10 if q else 100, prop="C07")
+    res.append(stages.trace_stage("C07", "promise-term", sc, seed, module="TraceVerify", calls="verify"))
+    return res
 
 
 def run_C04(tier, seed):
@@ -203,6 +223,12 @@ def run_C19(tier, seed):
     sc2, _ = stages.pick_scenarios("recover", tier, seed, lambda s: honest(s) and nm_of(s) <= 16, 8 if q else 80, prop="C19")
     res.append(stages.trace_stage("C19", "strict-prove", sc + sc2, seed, module="TraceProve", consts=STRICT_P, calls="prove"))
     res.append(stages.trace_stage("C19", "strict-verify", sc + sc2, seed, module="TraceVerify", consts=STRICT_V, calls="verify"))
+    # an independent straight-from-the-paper prover (validated by TLC in strict mode, run by run): the library accepts its
+    # proofs and recovers its masks, on Ristretto and on the free-module group
+    inr = lambda s: s["expect"]["verify"] == "ok"
+    res.append(stages.api_stage("C19", "forge", tier, seed, filter_fn=inr))
+    fg, _ = stages.pick_scenarios("forge", tier, seed, lambda s: inr(s) and nm_of(s) <= 16, 10 if q else 80, prop="C19")
+    res.append(stages.trace_stage("C19", "reference-prover", fg, seed, module="TraceProve", consts=STRICT_P, calls="prove"))
     return res
 
 
